@@ -23,7 +23,8 @@ pub struct Case {
     pub ps: bool,
     pub pse: bool,
     pub pager: bool,
-    /// 0 = default whitespace skipping, 1..4 = Layout rule templates
+    /// 0 = default whitespace skipping, 1..5 = Layout rule templates (5: a layout item made of two
+    /// tokens; every fourth input then carries a broken layout item between two tokens)
     #[serde(default)]
     pub mode: u8,
 }
@@ -34,7 +35,8 @@ fn kind_of(mode: u8) -> Option<LayoutKind> {
         1 => Some(LayoutKind::Ws),
         2 => Some(LayoutKind::WsLine),
         3 => Some(LayoutKind::WsLineBlock),
-        _ => Some(LayoutKind::WsLineBlockPlus),
+        4 => Some(LayoutKind::WsLineBlockPlus),
+        _ => Some(LayoutKind::WsPair),
     }
 }
 
@@ -51,7 +53,19 @@ fn render(c: &Case, bnf: &Bnf, ii: usize) -> (gen::Rendered, Vec<usize>) {
     let toks = gen::tokens_for(bnf, tape, 10);
     let mut cur = Cursor::new(&tape.tape);
     if c.mode > 0 {
-        return (gen::render_with_layout(&c.g.spec.terms, &toks, kind_of(c.mode), ii % 3 == 2, &mut cur), toks);
+        let mut r = gen::render_with_layout(&c.g.spec.terms, &toks, kind_of(c.mode), ii % 3 == 2, &mut cur);
+        if c.mode == 5 && ii % 4 == 3 && !toks.is_empty() {
+            // half a layout item right in front of token k: the layout parser shifts `~` and
+            // then fails; nothing behind this point may end up in a tree
+            let k = cur.pick(toks.len());
+            let at = r.spans[k].0;
+            r.text.insert(at, '~');
+            for sp in r.spans.iter_mut().skip(k) {
+                sp.0 += 1;
+                sp.1 += 1;
+            }
+        }
+        return (r, toks);
     }
     let style = if ii % 2 == 0 { LayoutStyle::Ascii } else { LayoutStyle::Minimal };
     (gen::render_tokens(&c.g.spec.terms, &toks, style, &mut cur), toks)
@@ -101,6 +115,32 @@ fn validate_tree(
     toks: &[usize],
     spans: &[(usize, usize)],
 ) -> Result<(), (String, String)> {
+    // the consumed input is tokens and layout, nothing else: every gap between two leaves (and
+    // before the first) is whitespace / a sentence of the Layout rule
+    {
+        let mut leaves = vec![];
+        t.leaves(&mut leaves);
+        let mut prev = 0usize;
+        for (k, l) in leaves.iter().enumerate() {
+            let sp = l.span();
+            if sp.start.pos < prev || sp.start.pos > inp.len() || !inp.is_char_boundary(sp.start.pos) || !inp.is_char_boundary(prev) {
+                return Err(("leaf-order".into(), format!("leaf {k} starts at {} before the end of the previous leaf {prev}", sp.start.pos)));
+            }
+            let gap = &inp[prev..sp.start.pos];
+            let ok = gap.is_empty()
+                || match spec.layout {
+                    None => crate::oracle::layoutmodel::is_ws(gap),
+                    Some(kind) => crate::oracle::layoutmodel::is_layout(kind, gap),
+                };
+            if !ok {
+                return Err((
+                    "gap-is-not-layout".into(),
+                    format!("the text {gap:?} between leaf {} and leaf {k} is neither a token nor layout, yet the tree spans it", k as i64 - 1),
+                ));
+            }
+            prev = sp.end.pos;
+        }
+    }
     let start_name = &spec.rules[0].name;
     if node_sym(d, t) != start_name || matches!(t, Node::Term { .. }) {
         return Err(("root-not-start".into(), String::new()));
@@ -149,7 +189,7 @@ impl Prop for C02 {
             any::<bool>(),
             any::<bool>(),
             any::<bool>(),
-            prop_oneof![3 => Just(0u8), 1 => Just(1u8), 1 => Just(2u8), 1 => Just(3u8), 1 => Just(4u8)],
+            prop_oneof![3 => Just(0u8), 1 => Just(1u8), 1 => Just(2u8), 1 => Just(3u8), 1 => Just(4u8), 2 => Just(5u8)],
         )
             .prop_map(|(g, meta_tape, term_assoc, ps, pse, pager, mode)| Case { g, meta_tape, term_assoc, ps, pse, pager, mode })
             .boxed()
@@ -163,10 +203,10 @@ impl Prop for C02 {
     fn rule(&self) -> String {
         "case = generated (mostly conflicting) BNF grammar with random priorities / associativity / \
          nops / nopse on productions, rules and terminals x prefer_shifts x prefer_shifts_over_empty \
-         x {LALR, LALR_PAGER} x {default whitespace skipping, four Layout-rule templates (whitespace / line comments / nested block comments / non-empty variant)}, LR algorithm; grammars whose table still has conflicts are discarded \
+         x {LALR, LALR_PAGER} x {default whitespace skipping, five Layout-rule templates (whitespace / line comments / nested block comments / non-empty variant / a two-token layout item, with half an item injected in front of a token in every fourth input)}, LR algorithm; grammars whose table still has conflicts are discarded \
          (the compiler rejects them); inputs = sentences, mutations, random token strings. For every \
          Ok(tree) with partial_parse off and on: root is the start rule; every interior node is an \
-         alternative of the spec whose symbols equal the child symbols exactly; leaves (kind, text) \
+         alternative of the spec whose symbols equal the child symbols exactly; every gap between leaves is whitespace / a sentence of the Layout rule; leaves (kind, text) \
          equal the generator's token list (all of it when partial is off, a prefix when on) and \
          token spans equal the generator's spans; parse_off(x)=Ok(t) => parse_on(x)=Ok(t). No claim \
          about which inputs are accepted. non-trivial = (grammar, settings, input) where >= 1 \
